@@ -101,6 +101,10 @@ macro_rules! rot_suite {
             logic::rot_action::<$T>(cx!(t, an), "Affine3A::from_quat(q).transform_vector3", &a.transform_vector3(v).to_array(), r, &c.v, 1.0, eq, ctx)?;
             logic::rot_action::<$T>(cx!(t, an), "Affine3A::from_quat(q).transform_point3", &a.transform_point3(pt).to_array(), r, &c.pt, 1.0, eq, ctx)?;
 
+            // the rotation + translation constructors hold the same rotation block as from_quat (the translation is a probe point)
+            logic::rot_entries::<$T>(cx!(t, m4n), "rot/from_quat-entries", "Mat4::from_rotation_translation", &block9(&$M4::from_rotation_translation(q, pt).to_cols_array()), r, 1.0, eq, ctx)?;
+            logic::rot_entries::<$T>(cx!(t, an), "rot/from_quat-entries", "Affine3A::from_rotation_translation", &block9a(&$A::from_rotation_translation(q, pt).to_cols_array()), r, 1.0, eq, ctx)?;
+
             // matrix -> quaternion -> matrix, through whichever branch this rotation selects
             let q1 = $Q::from_mat3(&m3);
             logic::quat_same::<$T>(cx!(t, qn), "Quat::from_mat3(Mat3::from_quat(q))", &q1.to_array(), &c.q, 2.0, eq, ctx)?;
